@@ -223,6 +223,11 @@ func (n *Node) WaitSynced(target uint32, o WaitOpts) error {
 	for {
 		s, err := n.Synced()
 		if err != nil {
+			// a daemon that died (log.Fatal) with its transaction open may still hold the write lock
+			time.Sleep(20 * time.Millisecond)
+			if n.Fataled() {
+				return ErrFatal
+			}
 			return err
 		}
 		if s >= target {
